@@ -280,4 +280,9 @@ def stepF (f : Fld) : Op → M (Fld × Fld)
     | .ok (_, m') => .ok (if i then { f with mesh := m' } else f, { f with mesh := m' })
   | .rotate90 a1 a2 k ref i => rotate90F f a1 a2 k ref i
 
+/-- the shape part of the field invariant: array of shape `(*n, nvdim)` (modelled as an
+`n`-shaped array of cell values) and a validity array of shape `n` -/
+def FldInv (f : Fld) : Prop := f.mesh.Inv ∧ f.data.shape = f.mesh.n ∧ f.valid.shape = f.mesh.n
+
+
 end DFV.T
